@@ -397,6 +397,7 @@ pub fn bilinear_family(rng: &mut Rng) -> Result<Fam> {
     let n = if sq { k } else { 1 + rng.below(3) };
     let m = if sq { k } else { 1 + rng.below(3) };
     let which = rng.below(7);
+    let both = sq && k >= 2 && rng.chance(1, 2);
     let (sa, sb, name): (Vec<u64>, Vec<u64>, String) = match which {
         0 => (vec![n, k], vec![k, m], "Dot".into()),
         1 => (vec![k], vec![k], "Dot".into()),
@@ -410,11 +411,16 @@ pub fn bilinear_family(rng: &mut Rng) -> Result<Fam> {
         let a = g.input(arr(&sa, st))?;
         let b = g.input(arr(&sb, st))?;
         match which {
+            // square matrices: the commutator, i.e. the same product of the same two nodes in both
+            // orders (the two products must stay two different nodes through every optimizer pass)
+            0 if both => a.dot(b.clone())?.subtract(b.dot(a)?),
+            4 if both => a.matmul(b.clone())?.subtract(b.matmul(a)?),
             0..=3 => a.dot(b),
             4 | 5 => a.matmul(b),
             _ => a.gemm(b, false, true),
         }
     })?;
+    let name = if both && (which == 0 || which == 4) { format!("{}-commutator", name) } else { name };
     finish("bilinear", format!("{} {} {:?} x {:?}", name, st_name(st), sa, sb), ctx, rng, vec![name], true)
 }
 
